@@ -173,7 +173,9 @@ def patched_iter(cls, fault, n_bins, seen):
 
 
 def faults(m, symm, full, salt=0):
-    """all faults for a stream of m chunks; `full` = every kind at every chunk and row position"""
+    """faults for a stream of m chunks: the iterator failing before every chunk index 0..m, plus invalid records /
+    unstorable values.  full=True: every kind x chunk x row position; full="kinds": every kind x chunk, the row position
+    rotating; full=False: every chunk x row position, the kind rotating"""
     out = [dict(kind="raise", chunk=k) for k in range(m + 1)]
     kinds = ["oob", "dup", "badvalue"] + (["tril"] if symm else [])
     oobv = ["bin2=n", "bin1=n", "bin1=-1", "bin2=n+3"]
@@ -182,7 +184,10 @@ def faults(m, symm, full, salt=0):
     for k in range(m):
         for pi, pos in enumerate(("first", "middle", "last")):
             for kind in kinds:
-                if not full and (k + pi + kinds.index(kind)) % len(kinds) != 0:
+                if full == "kinds":
+                    if (k + kinds.index(kind) + salt) % 3 != pi:
+                        continue
+                elif not full and (k + pi + kinds.index(kind)) % len(kinds) != 0:
                     continue
                 f = dict(kind=kind, chunk=k, pos=pos)
                 if kind == "oob":
@@ -601,8 +606,9 @@ def main():
                "destinations: new file, new group in multi-collection file, existing plain group, root of a file holding collections, "
                "sibling of a nested collection, existing plain group next to a nested collection, new file non-root group (thorough); producers: ordered, unordered (input pass, merge pass), "
                "merge_coolers, coarsen_cooler (+ sources holding a lower-triangle pixel, tiny merge buffers); "
-               + ("full product" if B.thorough else "every fault on the multi-collection destination for every producer; on the other destinations "
-                  "every chunk index with kinds/rows rotating (ordered: all; others: new file, root of file) or the iterator failure at every index"))
+               + ("full product" if B.thorough else "ordered x multi-collection destination: every kind x chunk x row; other producers there: every kind x "
+                  "chunk (row rotating); other destinations: every chunk x row with the kind rotating (ordered: all; others: new file, root of file) "
+                  "or the iterator failure at every index"))
     B.rule = ("case = (producer, destination, fault kind/chunk/row/variant, storage mode, chunk form, options); non-trivial when a creation "
               "was actually stopped (or, for the validator, the chunk is non-empty); distinct by case")
     # (a) validator
@@ -623,7 +629,7 @@ def main():
         """queue one creation (or run it at once: the control runs, whose stream lengths the enumeration needs)"""
         count[0] += 1
         kw.setdefault("form", "dict" if count[0] % 2 else "frame")
-        kw.setdefault("api_neigh", B.thorough or count[0] % 4 == 0)
+        kw.setdefault("api_neigh", B.thorough or count[0] % 6 == 0)
         if not now:
             jobs.append((prod, dname, fault, kw))
             return None
@@ -643,8 +649,11 @@ def main():
         streams[prod] = (seen["chunks"], opts)
     for prod, (mm, opts) in streams.items():
         for dname in dests:
-            if B.thorough or dname == "new-group-in-multi":
+            if B.thorough or (dname == "new-group-in-multi" and prod == "ordered"):
                 fs = faults(mm, True, True, salt=len(dname))            # every kind x chunk x row position
+            elif dname == "new-group-in-multi":
+                fs = faults(mm, True, "kinds", salt=len(prod))          # every kind x chunk (row position is the validator's
+                #                                                         business and does not depend on the producer)
             elif prod == "ordered" or dname in ("new-file", "root-of-file-with-collections"):
                 fs = faults(mm, True, False, salt=len(dname))           # every chunk, kinds/positions rotating
             else:
